@@ -24,6 +24,7 @@ import (
 	"github.com/vechain/thor/v2/p2p"
 	"github.com/vechain/thor/v2/test/testchain"
 	"github.com/vechain/thor/v2/thor"
+	"github.com/vechain/thor/v2/tx"
 	"github.com/vechain/thor/v2/txpool"
 
 	"verif/harness/internal/hx"
@@ -135,6 +136,7 @@ func runBatch(ctx *hx.Ctx, bc *BatchCase) (class, summary string, found bool) {
 
 	// (i) the decoder's forwarding against the model
 	local := buildLocal(&PairCase{Mode: "prefix", Div: bc.Start - 1}, remote)
+	defer closeChain(local)
 	s, answers := mkScript()
 	// requests the script does not cover are answered with an empty batch: tell the model the same
 	l := newLink(s.serve)
@@ -199,6 +201,7 @@ func runBatch(ctx *hx.Ctx, bc *BatchCase) (class, summary string, found bool) {
 
 	// (ii) the same script into the real node: never a block outside the valid chain, no crash
 	local2 := buildLocal(&PairCase{Mode: "prefix", Div: bc.Start - 1}, remote)
+	defer closeChain(local2)
 	n := startNode(local2)
 	defer n.stop()
 	s2, _ := mkScript()
@@ -341,6 +344,10 @@ type MsgCase struct {
 	Code    uint64 `json:"code"`
 	Size    uint32 `json:"size"` // declared size
 	Payload string `json:"payload"`
+	// ZeroArg > 0: the payload is the envelope [CallID, false, <ZeroArg zero bytes>] (kept symbolic: large payloads
+	// are not carried around as hex)
+	ZeroArg int    `json:"zero_arg,omitempty"`
+	CallID  uint32 `json:"call_id,omitempty"`
 	// answers the hostile peer gives to GetBlockByID calls triggered by its own announcements
 	Answer string `json:"answer"`
 }
@@ -349,6 +356,9 @@ type childResult struct {
 	Done       int      `json:"done"`
 	Violations []string `json:"violations"` // class \t summary \t index
 	Dropped    int      `json:"dropped"`
+	// per message: 0 = connection survived, 1 = peer dropped; -1 = not comparable (an announcement was sent on this
+	// connection before: the node's own fetch and our hostile answer may end the connection asynchronously)
+	Verdict []int8 `json:"verdict"`
 	Answered   int      `json:"answered"`
 	Control    bool     `json:"control_block_adopted"`
 }
@@ -483,8 +493,12 @@ func childMain(casesPath, outPath string) {
 	digest0 := storeDigest(lc)
 	best0 := lc.Repo().BestBlockSummary().Header.ID()
 	t.connect()
+	tainted := false
 	for i, mc := range cases {
 		payload, _ := hex.DecodeString(mc.Payload)
+		if mc.ZeroArg > 0 {
+			payload = envelope(mc.CallID, false, make([]byte, mc.ZeroArg))
+		}
 		ans, _ := hex.DecodeString(mc.Answer)
 		t.mu.Lock()
 		t.answer = ans
@@ -506,7 +520,19 @@ func childMain(casesPath, outPath string) {
 			flush()
 			os.Exit(0)
 		}
+		v := int8(0)
 		if !alive {
+			v = 1
+		}
+		if tainted {
+			v = -1
+		}
+		res.Verdict = append(res.Verdict, v)
+		if mc.Code == proto.MsgNewBlockID {
+			tainted = true
+		}
+		if !alive {
+			tainted = false
 			res.Dropped++
 			if p := <-t.srvDone; p != nil {
 				viol("msg-panic", fmt.Sprintf("panic in rpc.Serve/handleRPC on message %d (code %d, class %s): %v", i, mc.Code, mc.Class, p), i)
@@ -585,9 +611,73 @@ func doMsgs(ctx *hx.Ctx, cases []MsgCase) {
 	reportMsgs(ctx, cases, res, stderr, crashed)
 }
 
+// classifyMsg computes, with the real rlp library, what the accept/reject model needs to know about a message:
+// does the envelope decode, does the rest decode as the type of the message code
+func classifyMsg(mc *MsgCase) (size int, env string, argOK bool) {
+	payload, _ := hex.DecodeString(mc.Payload)
+	if mc.ZeroArg > 0 {
+		payload = envelope(mc.CallID, false, make([]byte, mc.ZeroArg))
+	}
+	size = len(payload)
+	r := bytes.NewReader(payload)
+	s := rlp.NewStream(r, uint64(len(payload)))
+	if _, err := s.List(); err != nil {
+		return size, "x", false
+	}
+	var id uint32
+	if err := s.Decode(&id); err != nil {
+		return size, "x", false
+	}
+	var isRes bool
+	if err := s.Decode(&isRes); err != nil {
+		return size, "x", false
+	}
+	env = fmt.Sprintf("%x:%s", id, hx.B(isRes))
+	arg := rlp.NewStream(r, uint64(len(payload)))
+	var err error
+	switch mc.Code {
+	case proto.MsgGetStatus, proto.MsgGetTxs:
+		err = arg.Decode(&struct{}{})
+	case proto.MsgNewBlockID, proto.MsgGetBlockByID:
+		var v thor.Bytes32
+		err = arg.Decode(&v)
+	case proto.MsgNewBlock:
+		var v *block.Block
+		err = arg.Decode(&v)
+	case proto.MsgNewTx:
+		var v tx.Transaction
+		err = arg.Decode(&v)
+	case proto.MsgGetBlockIDByNumber, proto.MsgGetBlocksFromNumber:
+		var v uint32
+		err = arg.Decode(&v)
+	default:
+		return size, env, false
+	}
+	return size, env, err == nil
+}
+
 func reportMsgs(ctx *hx.Ctx, cases []MsgCase, res *childResult, stderr string, crashed bool) {
+	// the accept/reject model of rpc.Serve + handleRPC against what the real node did with each message
+	if !crashed && len(res.Violations) == 0 {
+		for i := range cases {
+			if i >= len(res.Verdict) || res.Verdict[i] < 0 {
+				continue
+			}
+			size, env, argOK := classifyMsg(&cases[i])
+			code := cases[i].Code
+			if code > 8 {
+				code = 8
+			}
+			m := ask(fmt.Sprintf("R %d %x %s %s", code, size, env, hx.B(argOK)))
+			ctx.Cov.Count("serve_model_" + m)
+			if (m == "drop") != (res.Verdict[i] == 1) && !reported(ctx, "serve-model") {
+				ctx.Violation("serve-model", fmt.Sprintf("accept/reject model of rpc.Serve+handleRPC answers %q for a message (code %d, size %d, envelope %s, argument decodes %v) but the node %s the peer",
+					m, cases[i].Code, size, env, argOK, map[bool]string{true: "dropped", false: "kept"}[res.Verdict[i] == 1]), cases[i], false)
+			}
+		}
+	}
 	for _, mc := range cases {
-		ctx.Cov.Case(fmt.Sprintf("msg %d %d %s %s", mc.Code, mc.Size, mc.Payload, mc.Answer), mc.Class != "random", nil)
+		ctx.Cov.Case(fmt.Sprintf("msg %d %d %d %d %s %s", mc.Code, mc.Size, mc.ZeroArg, mc.CallID, mc.Payload, mc.Answer), mc.Class != "random", nil)
 		ctx.Cov.Count("msg_class_" + mc.Class)
 		ctx.Cov.Count(fmt.Sprintf("msg_code_%d", min(mc.Code, 9)))
 	}
@@ -766,12 +856,16 @@ func genMsgs(ctx *hx.Ctx, rnd *hx.Rand) []MsgCase {
 		default:
 			if rnd.Chance(1, 60) {
 				mc.Class = "oversize"
-				p = envelope(id, false, make([]byte, proto.MaxMsgSize+1000))
+				mc.ZeroArg = proto.MaxMsgSize + 1000
 			} else {
 				mc.Class = "near-limit-tx"
-				p = envelope(id, false, make([]byte, 60000+rnd.Intn(12000)))
+				mc.ZeroArg = 60000 + rnd.Intn(12000)
 				mc.Code = proto.MsgNewTx
 			}
+			mc.CallID = id
+			mc.Size = uint32(mc.ZeroArg)
+			out = append(out, mc)
+			continue
 		}
 		mc.Size = uint32(len(p))
 		mc.Payload = hex.EncodeToString(p)
